@@ -37,13 +37,27 @@ func (this *zzCanaryList) add(e int) {
 	this.size++
 }
 
+type zzCanaryKeyVal struct {
+	key   int
+	value int
+}
+
+type zzCanarySortable struct {
+	compare func(a, b *zzCanaryKeyVal) bool
+	data    []*zzCanaryKeyVal
+}
+
+func (s zzCanarySortable) Len() int           { return len(s.data) }
+func (s zzCanarySortable) Less(i, j int) bool { return s.compare(s.data[i], s.data[j]) }
+func (s zzCanarySortable) Swap(i, j int)      { s.data[i], s.data[j] = s.data[j], s.data[i] }
+
 // descending order also flips the child tie-break
 func (this *zzCanaryList) SortingAnyList(asc bool, child AnyList, childAsc bool) []int {
-	table := make([]*IntListKeyVal, this.size)
+	table := make([]*zzCanaryKeyVal, this.size)
 	for i := 0; i < this.size; i++ {
-		table[i] = &IntListKeyVal{i, this.get(i)}
+		table[i] = &zzCanaryKeyVal{i, this.get(i)}
 	}
-	c := func(o1, o2 *IntListKeyVal) bool {
+	c := func(o1, o2 *zzCanaryKeyVal) bool {
 		rt := compare.CompareToInt(o1.value, o2.value)
 		if rt == 0 {
 			rt = CompareChild(child, childAsc, o1.key, o2.key)
@@ -53,7 +67,7 @@ func (this *zzCanaryList) SortingAnyList(asc bool, child AnyList, childAsc bool)
 		}
 		return rt <= 0
 	}
-	sort.Sort(IntListSortable{compare: c, data: table})
+	sort.Sort(zzCanarySortable{compare: c, data: table})
 	out := make([]int, this.size)
 	for i := 0; i < this.size; i++ {
 		out[i] = table[i].key
